@@ -209,6 +209,9 @@ func (res *CampaignResult) Finish(c *core.Ctx, level string, cov map[string]any,
 	cov["discarded"] = res.Discarded
 	cov["inconclusive"] = res.Inconcl
 	cov["budget_ended_early"] = res.BudgetEnded
+	if res.BudgetEnded {
+		fmt.Printf("NOTE: the wall-clock watchdog ended the campaign after %d cases (a loaded machine explores less; nothing is reported for cases that did not run)\n", res.Cases)
+	}
 	if res.Steps > 0 {
 		cov["simulated_steps"] = res.Steps
 	}
